@@ -336,7 +336,17 @@ def for_headers(R, rule, fn, expected):
     bad = None
     if len(got) != len(expected):
         return ck.broken(rule, fn + ':scans', R.where(fn), '%d loops over the table found, the confirmed table has %d' % (len(got), len(expected)))
-    for (startv, op, field, step, line), (es, ef) in zip(got, expected):
+    # the scans are matched with the confirmed table by what they run over and where they start, not by their position:
+    # a loop that decides nothing for its neighbours (zeroing memory, linking) may be moved between them
+    rest = list(expected)
+    paired = []
+    for g in got:
+        cand = [e_ for e_ in rest if e_[1] == g[2] and e_[0] == g[0]] or [e_ for e_ in rest if e_[1] == g[2]]
+        if not cand:
+            return ck.broken(rule, fn + ':scans', '%s:%d' % (UNIT, g[4]), 'a scan over t->%s more than the confirmed table has' % g[2])
+        rest.remove(cand[0])
+        paired.append((g, cand[0]))
+    for (startv, op, field, step, line), (es, ef) in paired:
         if field != ef:
             return ck.broken(rule, fn + ':scans', '%s:%d' % (UNIT, line), 'loop bound is %s, the confirmed table says t->%s' % (field, ef))
         if step in ('unknown', 'also-in-body', 'advance-first') or startv is None and es is not None and step == 1 and op == '<':
@@ -604,7 +614,7 @@ def config_bits_fixture(R, rule):
     """zero-expected rule: the positive example that must be reported on every run (a function setting bit 0 - the entry's
     TOUCHED mark, the area's READABLE right - in an area's flag word, parsed with the unit's own headers and flags)"""
     src = ('#include "core.c"\n'
-           'void vp_fixture_area_mark(RegisterArea *a) { a->flags |= REG_EF_TOUCHED; }\n'
+           'void vp_fixture_area_mark(RegisterArea *a) { a->flags |= REG_AF_READABLE; }\n'
            'void vp_fixture_area_mark_ok(RegisterArea *a) { a->flags |= (1u << 8u); a->flags &= ~(1u << 9u); }\n')
     try:
         fu = cast.load(UNIT, source_text=src)
